@@ -36,6 +36,9 @@ CHECKS = {
  "C13": ("cmdsim","exploration","§5 C13","deterministic simulation over long histories with drop-counted tokens and read-only occupancy accessors",
    "Long generated histories of start/resolve/drop/abort cycles; at every quiescent point executor tasks, command tasks, registry entries by kind and live tokens must be accounted for by the reference's outstanding work, and be zero after the drain phase and after the host is dropped. Sampling, not proof.",
    "Trusted: verif accessors, the reference model's notion of outstanding work."),
+ "C17": ("capsim","exploration","§5 C17","deterministic simulation: simulated key-value store behind the shell with reordered completions and injected store errors, on Core, bincode bridge and JSON bridge, three API styles",
+   "Histories with many outstanding key-value calls are completed by a simulated store in any order, with every error variant and odd but legal answers; per step the app's record must equal exactly what the store answered for each call, and the operation the shell sees exactly what was asked, including across bincode and JSON. The data-fidelity dimension is only sampled; simulation contributes the history dimension.",
+   "Trusted: the in-memory reference store; the store answers with the matching response variant."),
  "C18": ("capsim","exploration","§5 C18","deterministic simulation: simulated timer service with a discrete-event clock, per-timer reference state machine, fire/clear/drop/answer interleavings on direct Command, Core and Bridge",
    "Seeded search over interleavings of first poll, fire, app clear, handle drop, request drop, clear confirmation and late/duplicate answers for several timers, both APIs; every request sent and every outcome reported is compared per step with a state machine written from the statement; ids must be unique across cores in the process. Sampling, not proof.",
    "Trusted: the per-timer reference machine; the service answers with the matching response type; legacy API judged at its documented observation point."),
